@@ -4,6 +4,7 @@ mod exec;
 mod gen;
 mod lean;
 mod rng;
+mod tables;
 mod transport;
 
 use std::io::BufRead;
@@ -28,6 +29,9 @@ fn main() {
                 println!("{}", m);
             }
             std::process::exit(if ms.is_empty() { 0 } else { 1 });
+        }
+        Some("errtable") => {
+            print!("{}", tables::error_table_lean());
         }
         Some("check") => {
             // kharness check <prop> <tier> <seed> [corpus-dir]
